@@ -1,15 +1,16 @@
 #!/bin/bash
-# tools/keep_seed.sh <Cxx> <seed-name> : confirm in scratch worktree, store under seeded/, remove worktree, run checks
+# tools/keep_seed.sh <Cxx> <seed-name> [checks…] (env SO=/tmp/seed_out WTP=/tmp/wt_) : confirm in scratch worktree, store under seeded/, remove worktree, run checks
 set -u
 id=$1; name=$2; shift 2
-out=$(tools/confirm_seed.sh $id /tmp/seed_out/$id /tmp/wt_$id | tail -2); echo "$out"
+SO=${SO:-/tmp/seed_out}; WTP=${WTP:-/tmp/wt_}
+out=$(tools/confirm_seed.sh $id $SO/$id $WTP$id | tail -2); echo "$out"
 echo "$out" | grep -q '^CONFIRMED' || { echo "not kept"; exit 1; }
-d=seeded/$name; mkdir -p $d; cp /tmp/seed_out/$id/{patch.diff,demo.rs,meta.json,confirm.json} $d/
+d=seeded/$name; mkdir -p $d; cp $SO/$id/{patch.diff,demo.rs,meta.json,confirm.json} $d/
 python3 - $d <<'PY'
 import json,sys
 d=sys.argv[1]; m=json.load(open(d+'/meta.json')); c=json.load(open(d+'/confirm.json'))
 m['confirmed']={'how':'tools/confirm_seed.sh in a scratch worktree under /tmp: patch.diff applied to HEAD, cargo test --workspace --no-fail-fast --offline (suite), demo.rs as tests/seed_demo.rs with and without the change', **c}
 json.dump(m,open(d+'/meta.json','w'),indent=1)
 PY
-rm $d/confirm.json; git -C /repo worktree remove --force /tmp/wt_$id
+rm $d/confirm.json; git -C /repo worktree remove --force $WTP$id
 python3 tools/seedcheck.py $d "$@" 2>&1 | grep -v "^    VIOLATION" ; grep -c VIOLATION $d/check_results.json
